@@ -33,6 +33,7 @@ CONSTANTS
   FixDel = TRUE
   FixInit = TRUE
   PreAcked = TRUE
+  Bursts = FALSE
   Sync = FALSE
 VIEW view
 INVARIANTS TypeOK Refines WriteExclusion CloseOnceI NothingLeft StopCancelsI
